@@ -8,6 +8,10 @@ func AllRules() map[string]*Rule {
 	for _, r := range []*Rule{
 		ruleVoteGrant(),
 		ruleTermVote(),
+		ruleSticky(),
+		ruleLeaderEntry(),
+		ruleCountVotes(),
+		ruleLeaderID(),
 	} {
 		m[r.ID] = r
 	}
